@@ -5,6 +5,7 @@ import (
 	"go/ast"
 	"go/token"
 	"math/big"
+	"strconv"
 	"strings"
 )
 
@@ -12,13 +13,14 @@ import (
 
 // Binding is one declared Go variable (parameter or local).
 type Binding struct {
-	goName   string
-	typ      *T
-	depth    int
-	ptrParam bool // pointer parameter whose pointee is threaded
-	ptrLocal bool // local pointer to a fresh allocation (x := &T{...}): the only name of its pointee, threaded like a pointer parameter
-	madeAt   ast.Stmt
-	madeHere bool // a local map initialised by make(...) in its declaration: the only name of that map
+	goName    string
+	typ       *T
+	depth     int
+	ptrParam  bool // pointer parameter whose pointee is threaded
+	ptrLocal  bool // local pointer to a fresh allocation (x := &T{...}): the only name of its pointee, threaded like a pointer parameter
+	madeAt    ast.Stmt
+	madeHere  bool // a local map initialised by make(...) in its declaration: the only name of that map
+	madeSlice bool // stage H: a local slice declared by x := make([]T, n): element assignment x[i] = v is allowed when x has no other name (checkLocalElemWrites)
 }
 
 // Val is the translation of a Go expression: a total, pure Gallina term.
@@ -119,16 +121,17 @@ type FuncInfo struct {
 }
 
 type Tr struct {
-	p         *Pkg
-	needDEval bool // a map[Variable]*Term was translated: dbindings / dlookup of Model/DEval.v
-	needGoMap bool // a map write or a set of strings was translated: Model/GoMap.v
-	infos     map[string]*FuncInfo
-	state     map[string]int // 1 = in progress, 2 = done
-	out       []string       // emitted items, in dependency order
-	emitted   map[string]bool
-	mutMemo   map[string][]bool
-	rxMemo    map[string]int
-	tstrMemo  map[string]int
+	p           *Pkg
+	needDEval   bool // a map[Variable]*Term was translated: dbindings / dlookup of Model/DEval.v
+	needGoMap   bool // a map write or a set of strings was translated: Model/GoMap.v
+	needPrinter bool // strings.Join was translated: Printer.join (Model/Printer.v)
+	infos       map[string]*FuncInfo
+	state       map[string]int // 1 = in progress, 2 = done
+	out         []string       // emitted items, in dependency order
+	emitted     map[string]bool
+	mutMemo     map[string][]bool
+	rxMemo      map[string]int
+	tstrMemo    map[string]int
 	// per function
 	fn      *FuncInfo
 	counter int
@@ -555,6 +558,14 @@ func (tr *Tr) usesTstrOf(key string) bool {
 			if f, ok := c.Fun.(*ast.SelectorExpr); ok && f.Sel.Name == "String" && len(c.Args) == 0 {
 				uses = true
 			}
+			// stage H: fmt.Sprintf("...%v...", x) / %s where the operand x is a variable bound by the
+			// value of a range clause or by a comma-ok type assertion's operand ... decided with types
+			// in exprs.go; here (before types) the over-approximation is: the operand of a %v / %s verb
+			// is a plain identifier that is the VALUE variable of an enclosing range statement of this
+			// function (tstrSprintfOperand).
+			if tr.tstrSprintfOperand(d, c) {
+				uses = true
+			}
 			keys, _ := tr.candidates(c)
 			for _, k := range keys {
 				if tr.usesTstrOf(k) {
@@ -568,6 +579,50 @@ func (tr *Tr) usesTstrOf(key string) bool {
 		tr.tstrMemo[key] = 1
 	}
 	return uses
+}
+
+// tstrSprintfOperand: c is fmt.Sprintf(lit, args...) and some %v / %s verb of lit has as operand a
+// plain identifier naming the value variable of a range statement of d whose range expression is a
+// selector ending in a field named Terms or an identifier/selector of a []Term-typed struct field
+// cannot be known before types: so every range VALUE variable counts.  exprs.go then decides with
+// types: the operand becomes `tstr x` only when it has the interface type Term; otherwise the
+// function merely carries an unused parameter tstr (never a wrong translation).
+func (tr *Tr) tstrSprintfOperand(d *ast.FuncDecl, c *ast.CallExpr) bool {
+	f, ok := c.Fun.(*ast.SelectorExpr)
+	if !ok || exprStr(f) != "fmt.Sprintf" || len(c.Args) < 2 {
+		return false
+	}
+	lit, ok := unparen(c.Args[0]).(*ast.BasicLit)
+	if !ok || lit.Kind != token.STRING {
+		return false
+	}
+	format, err := strconv.Unquote(lit.Value)
+	if err != nil {
+		return false
+	}
+	verbs := parseVerbs(format)
+	rangeVals := map[string]bool{}
+	ast.Inspect(d.Body, func(n ast.Node) bool {
+		if r, ok := n.(*ast.RangeStmt); ok && r.Value != nil {
+			if id, ok := r.Value.(*ast.Ident); ok && id.Name != "_" {
+				rangeVals[id.Name] = true
+			}
+		}
+		return true
+	})
+	ai := 0
+	for _, v := range verbs {
+		if v.verb == 0 {
+			continue
+		}
+		if ai+1 < len(c.Args) && (v.verb == 'v' || v.verb == 's') {
+			if id, ok := unparen(c.Args[ai+1]).(*ast.Ident); ok && rangeVals[id.Name] {
+				return true
+			}
+		}
+		ai++
+	}
+	return false
 }
 
 // ---------- translation of one function ----------
@@ -1041,6 +1096,9 @@ func (tr *Tr) assignStmt(s *ast.AssignStmt, env *Env, next ast.Stmt, rest cont) 
 									b.madeAt = next
 									if b.typ.K == KStrSet {
 										b.madeHere = true
+									}
+									if b.typ.K == KSlice && b.typ.Name == "" && !isAtomList(b.typ) {
+										b.madeSlice = true
 									}
 								}
 							}
@@ -1687,6 +1745,9 @@ func (tr *Tr) rangeStmt(s *ast.RangeStmt, env *Env, rest cont) string {
 func (tr *Tr) indexStore(at ast.Node, ix *ast.IndexExpr, i Val, v Val, env *Env, rest cont) string {
 	pb := tr.storeTarget(at, ix, env)
 	lt := pb.typ.Elem
+	if pb.madeSlice && pb.typ.K == KSlice {
+		lt = pb.typ
+	}
 	it := i.term
 	if i.typ.isUnsigned() {
 		it = "Z.of_N " + paren(i.term)
@@ -1721,6 +1782,15 @@ func (tr *Tr) storeIndex(at ast.Node, ix *ast.IndexExpr, env *Env) Val {
 
 // storeTarget: the pointer p of (*p)[i] = v, with the checks on it.
 func (tr *Tr) storeTarget(at ast.Node, ix *ast.IndexExpr, env *Env) *Binding {
+	// stage H: x[i] = v where x is a LOCAL slice declared by x := make([]T, n) and used in this
+	// function only as x[i], len(x) and as the first argument of strings.Join (checkLocalElemWrites):
+	// no second name of its backing array can exist, so the value representation is exact.
+	if lid, isId := unparen(ix.X).(*ast.Ident); isId {
+		if lb, exists := env.scope[lid.Name]; exists && lb.madeSlice && lb.typ.K == KSlice {
+			tr.checkLocalElemWrites(lid.Name, at)
+			return lb
+		}
+	}
 	star, ok := unparen(ix.X).(*ast.StarExpr)
 	if !ok {
 		tr.fail(at, "assignment to an element of %s (only (*p)[i] = v through a pointer parameter: a slice variable may share its backing array)", exprStr(ix.X))
@@ -1790,6 +1860,64 @@ func (tr *Tr) checkElemWrites(name string, at ast.Node) {
 		}
 		_ = j2
 		tr.fail(id, "use of *%s other than (*%s)[i] and len(*%s) in a function that assigns to (*%s)[i] (sharing of the backing array is not represented)", name, name, name, name)
+		return true
+	})
+}
+
+// checkLocalElemWrites: in a function that assigns to x[i] for a local slice x made by
+// x := make([]T, n), the name x may occur only as the left-hand side of that declaration, as x[i]
+// (read or written), in len(x), and as the first argument of strings.Join (a library function that
+// only reads its argument).  Any other use (a copy, a slice expression, append, range, return,
+// passing it to a function of the package) could create or observe a second name of the backing
+// array and is refused.  The check is by name over the whole function body (conservative when the
+// name is also declared elsewhere in the function).
+func (tr *Tr) checkLocalElemWrites(name string, at ast.Node) {
+	var stack []ast.Node
+	ast.Inspect(tr.fn.decl.Body, func(n ast.Node) bool {
+		if n == nil {
+			stack = stack[:len(stack)-1]
+			return true
+		}
+		stack = append(stack, n)
+		id, ok := n.(*ast.Ident)
+		if !ok || id.Name != name {
+			return true
+		}
+		j := len(stack) - 2
+		for j >= 0 {
+			if _, isParen := stack[j].(*ast.ParenExpr); !isParen {
+				break
+			}
+			j--
+		}
+		if j >= 0 {
+			switch p := stack[j].(type) {
+			case *ast.IndexExpr:
+				if containsNode(p.X, id) {
+					return true
+				}
+			case *ast.CallExpr:
+				if f, ok := p.Fun.(*ast.Ident); ok && f.Name == "len" && len(p.Args) == 1 {
+					return true
+				}
+				if f, ok := p.Fun.(*ast.SelectorExpr); ok && exprStr(f) == "strings.Join" && len(p.Args) == 2 && containsNode(p.Args[0], id) {
+					return true
+				}
+			case *ast.AssignStmt:
+				if p.Tok == token.DEFINE && len(p.Lhs) == 1 && len(p.Rhs) == 1 && p.Lhs[0] == ast.Expr(id) {
+					if c, ok := unparen(p.Rhs[0]).(*ast.CallExpr); ok {
+						if f, ok := c.Fun.(*ast.Ident); ok && f.Name == "make" {
+							return true
+						}
+					}
+				}
+			case *ast.SelectorExpr:
+				if p.Sel == id { // a field or method of that name, not the variable
+					return true
+				}
+			}
+		}
+		tr.fail(id, "use of %s other than %s[i], len(%s) and strings.Join(%s, sep) in a function that assigns to %s[i] (sharing of the backing array is not represented)", name, name, name, name, name)
 		return true
 	})
 }
